@@ -6,14 +6,14 @@ from .. import lifecycle_common as L
 ID = 'C08'
 MODULES = ['OFModel.Lifecycle']
 RULE = ('scripted subclasses of the real Filter run by the real Filter.run(sig_stop=False) on the fake zmq network with one upstream and one '
-        'downstream neighbour: one fault (raise | exit() | exit(exc) | exit message clean/error | stop event) at every lifecycle point '
+        'downstream neighbour: one fault (raise | KeyboardInterrupt | exit() | exit(exc) incl. exit(reason, SystemExit(1)) | exit message clean/error | stop event) at every lifecycle point '
         '(constructor, init before/after Filter.init, MQ construction (3 ways), setup, recv/process/send of iteration 1..n, shutdown, '
         'send_exit_msg, fini) x 16 (prop_exit, obey_exit) pairs x loop_exc; every exit_after form (float, int, str secs, m:s, h:m:s, d:h:m:s, '
         '@iso, @time, @date time, @dateTtime) x deadline position with a scripted clock; random scripts with 2-3 faults; thorough: all pairs of '
         'points.  non-trivial = at least one fault fired or the exit_after deadline ended the run')
 ASSUMPTIONS = ['sig_stop=False: signals are represented by the stop event being set at a scripted point',
                'exit messages are delivered (OOB delivery is assumed, the MQ protocol itself is C01-C07); at recv/send they travel the real zeromq.py OOB path over the fake network',
-               'BaseExceptions other than Filter.Exit (KeyboardInterrupt) are not injected',
+               'interrupts are KeyboardInterrupt raised at a scripted point and exit(reason, SystemExit(1)); what is announced to the neighbours for an interrupt is not asserted by the oracle (the code says \'clean\' because is_exc only tests for Exception: stated fact C08_interrupt_raises / C08_boundary_interrupt_announced_clean), it is compared with the model',
                'Filter.run is not called from inside an except block of the caller (sys.exc_info() would then report the caller\'s exception as in flight)',
                'graph-level propagation (C08_propagation) is proved on the model with each filter summarised by its relay function, which is itself defined by the run model; pipelines of several real filters are not executed by this check',
                'double faults are checked against the model and the structural clauses only; which of two exceptions wins is the stated Python finally semantics (boundary witnesses in OFProps/C08.lean)']
@@ -56,13 +56,21 @@ def oracle(case, o):
             if obeyed: eff.append((p, 'error' if a == 'msg:error' else 'clean', a))
         elif a in ('raise', 'exit:other'): eff.append((p, 'error', a))
         elif a == 'exit:propagate': eff.append((p, 'error', a))
+        elif a in ('interrupt', 'exit:base'): eff.append((p, 'interrupt', a))
         elif a == 'exit': eff.append((p, 'clean', a))
         elif a == 'stop': eff.append((p, 'clean', a))
     errs = [e for e in eff if e[1] == 'error']
+    intrs = [e for e in eff if e[1] == 'interrupt']
     # returns normally for clean exits, raises for errors
     if not ctor_ok:
         if o['outcome'] == 'returns': V('outcome:bad-config-returns', 'constructor raised but run() returned')
-    elif not errs:
+    elif intrs and len(fired) == 1:
+        # an interrupt (KeyboardInterrupt, exit(reason, SystemExit(n))) leaves run() at every point, whatever loop_exc is
+        p, _, a = intrs[0]; pp = p.rstrip('0123456789')
+        want = 'KeyboardInterrupt' if a == 'interrupt' else 'SystemExit'
+        if o['outcome'] != 'raises:base' or o.get('exc_class') != want:
+            V(f'outcome:{pp}:{a}', f'{a} at {p}, loop_exc={case["loop_exc"]}: run() {o["outcome"]} ({o.get("exc_class")}), expected it to raise {want}')
+    elif not errs and not intrs:
         if o['outcome'] != 'returns': V('outcome:clean-raises', f'no error fired ({fired}) but run() {o["outcome"]}')
     elif len(fired) == 1:
         p, _, a = errs[0]; pp = p.rstrip('0123456789')
@@ -76,7 +84,7 @@ def oracle(case, o):
     if len(sent) > 1: V('exit-msg:twice', f'{sent}')
     if not init_done and sent: V('exit-msg:before-init', f'{sent}')
     if any(r not in INCL[case['prop']] for r in sent): V('exit-msg:not-allowed', f'{sent} with prop_exit={case["prop"]}')
-    if init_done and len(fired) <= 1:
+    if init_done and len(fired) <= 1 and not intrs:
         kind = 'clean'
         if errs:
             p, _, a = errs[0]; pp = p.rstrip('0123456789')
